@@ -297,12 +297,20 @@ func report(p *Prog, prop, tier string, seed int, results []*FuncResult, loadT, 
 		if fr.Con != nil {
 			deadOK, _ = strconv.Atoi(fr.Con.Opts["dead_returns"])
 		}
+		// opt dead_loops=N: likewise for loop heads that sit in code the precondition / callee contracts make dead
+		deadLoops := 0
+		if fr.Con != nil {
+			deadLoops, _ = strconv.Atoi(fr.Con.Opts["dead_loops"])
+		}
 		for _, o := range fr.Obls {
 			solverTime += o.Time
 			if o.Expect == "sat" {
 				covers++
 				if o.Status == "unsat" && o.Kind == "cover.return" && deadOK > 0 {
 					deadOK--
+					coversOK++
+				} else if o.Status == "unsat" && strings.HasPrefix(o.Kind, "cover.loop") && deadLoops > 0 {
+					deadLoops--
 					coversOK++
 				} else if o.Status == "unsat" {
 					vacuous = append(vacuous, o)
